@@ -33,6 +33,41 @@ theorem C15_dbc (S S' : Schema) (h : Twin S S') (fuel : Nat) (i : Impl) :
   unfold dbcMessage
   rw [generate_twin S S' true fuel i h]
 
+
+/-- the generated C++ codecs (static and reflection-loaded, encoders and decoders) are functions
+of the closed type tree, which twins share: same bytes, same decoded values -/
+theorem C15_cpp (S S' : Schema) (h : Twin S S') (f : Nat) (name : String) (ty ty' : Ty)
+    (hr : resolve S f (.struct name) = some ty) (hr' : resolve S' f (.struct name) = some ty') :
+    ty = ty' ∧
+    (∀ v, Cpp.cppEnc ty v = Cpp.cppEnc ty' v ∧ Cpp.dynEnc ty v = Cpp.dynEnc ty' v) ∧
+    (∀ bs, Cpp.cppDec ty bs = Cpp.cppDec ty' bs ∧ Cpp.dynDec ty bs = Cpp.dynDec ty' bs) := by
+  have e : ty = ty' := by
+    rw [resolve_twin S S' h] at hr
+    rw [hr] at hr'
+    exact Option.some.inj hr'
+  subst e
+  exact ⟨rfl, fun _ => ⟨rfl, rfl⟩, fun _ => ⟨rfl, rfl⟩⟩
+
+/-- ... and every one of them writes the canonical bytes of the id-sorted struct, whichever way
+the fields were declared (the refinement theorems of C03 / C13 at the twin) -/
+theorem C15_cpp_canonical (S S' : Schema) (h : Twin S S') (f : Nat) (name : String) (ty : Ty) (v : Val)
+    (hr : resolve S f (.struct name) = some ty) (hv : wf ty v = true) :
+    ∃ ty', resolve S' f (.struct name) = some ty' ∧
+      Cpp.cppEnc ty' v = enc ty v ∧ Cpp.dynEnc ty' v = enc ty v := by
+  refine ⟨ty, by rw [← resolve_twin S S' h]; exact hr, Cpp.cppEnc_eq ty v hv, ?_⟩
+  rw [Cpp.dynEnc_eq_cppEnc ty v, Cpp.cppEnc_eq ty v hv]
+
+/-- the generated C packs a frame from the layout leaves, which twins share: whatever layout the
+twin yields, it is the same one, hence the same frame for every list of values -/
+theorem C15_c (S S' : Schema) (h : Twin S S') (fuel : Nat) (i : Impl) (ls ls' : List Leaf) (e e' : Nat)
+    (hg : generate S true fuel i = some (ls, e)) (hg' : generate S' true fuel i = some (ls', e'))
+    (id : Int) (vs : List Int) :
+    CanC.encodeMsg id ls' e' vs = CanC.encodeMsg id ls e vs ∧
+    CanC.decodeWord (CanC.encodeWord ls' vs) ls' = CanC.decodeWord (CanC.encodeWord ls vs) ls := by
+  rw [generate_twin S S' true fuel i h, hg'] at hg
+  obtain ⟨rfl, rfl⟩ := Prod.mk.inj (Option.some.inj hg)
+  exact ⟨rfl, rfl⟩
+
 /-- structs pairwise equal up to the order of their fields -/
 def StructsTwin : List Struct → List Struct → Prop
   | [], [] => True
